@@ -33,6 +33,8 @@ Inductive case :=
 | CSign (n : nat) (blob msg : bytes) (accept : bool) (sig : res bytes) (calls : list (bytes * bool))
 | CVerify (n : nat) (msg sig pk : bytes) (verdict : res unit)
 | CLifetime (n : nat) (blob : bytes) (life : res N)
+(* SigningKey::from_bytes(blob).try_sign(msg): signature and the key bytes afterwards *)
+| CTrySign (n : nat) (blob msg : bytes) (sig after : res bytes)
 | COtsPub (n : nat) (I : bytes) (q : N) (seed : bytes) (ty : N) (out : res bytes)
 | COtsSign (n : nat) (I : bytes) (q : N) (seed : bytes) (ty : N) (C msg : bytes) (out : res bytes).
 
@@ -91,6 +93,11 @@ Definition model_ots_sign (n : nat) (I : bytes) (q : N) (seed : bytes) (ty : N) 
   | None => Err
   end.
 
+(* SigningKey::from_bytes refuses more than REF_IMPL_MAX_PRIVATE_KEY_SIZE bytes *)
+Definition model_try_sign (n : nat) (blob msg : bytes) : res bytes * res bytes :=
+  if Nat.ltb (c_used_leafs_size K + c_ref_levels K + c_max_seed_len K) (length blob) then (Err, Err)
+  else let (r, k) := signing_key_try_sign K n (Hn n) blob msg in (r, Ok k).
+
 (* what the model says for a case, rendered for replay files *)
 Inductive shown :=
 | SBytes (r : res String.string)
@@ -118,6 +125,8 @@ Definition model_of (c : case) : shown :=
     SSign (hexr r) (map (fun c => (hex (fst c), snd c)) cs)
   | CVerify n msg sig pk _ => SVerdict (hss_verify K n (Hn n) msg sig pk)
   | CLifetime n blob _ => SNum (get_lifetime K n blob)
+  | CTrySign n blob msg _ _ =>
+    let r := model_try_sign n blob msg in SPair (hexr (fst r)) (hexr (snd r))
   | COtsPub n tid q seed ty _ => SBytes (hexr (model_ots_pub n tid q seed ty))
   | COtsSign n tid q seed ty C msg _ => SBytes (hexr (model_ots_sign n tid q seed ty C msg))
   end.
@@ -139,6 +148,9 @@ Definition run_case (c : case) : bool :=
     res_eqb bytes_eqb r sig && calls_eqb cs calls
   | CVerify n msg sig pk v => res_eqb (fun _ _ => true) (hss_verify K n (Hn n) msg sig pk) v
   | CLifetime n blob l => res_eqb N.eqb (get_lifetime K n blob) l
+  | CTrySign n blob msg sig after =>
+    let r := model_try_sign n blob msg in
+    res_eqb bytes_eqb (fst r) sig && res_eqb bytes_eqb (snd r) after
   | COtsPub n tid q seed ty out => res_eqb bytes_eqb (model_ots_pub n tid q seed ty) out
   | COtsSign n tid q seed ty C msg out => res_eqb bytes_eqb (model_ots_sign n tid q seed ty C msg) out
   end.
